@@ -36,3 +36,101 @@ func VF_C15_CompareOrder() {
 		vf.Assert(ac <= 0, "transitive-weak")
 	}
 }
+
+func pow10(n int) uint64 {
+	r := uint64(1)
+	for i := 0; i < n; i++ {
+		r *= 10
+	}
+	return r
+}
+
+// digits64/digits32 return a symbolic value with exactly d decimal digits (the
+// case split that keeps the string solver fast).
+func digits64(tag string, maxDigits int) uint64 {
+	d := 1 + vf.Choice(tag+".digits", maxDigits)
+	x := vf.NatU64(tag)
+	lo := pow10(d - 1)
+	if d == 1 {
+		lo = 0
+	}
+	vf.Assume(vf.All(x >= lo, x < pow10(d)))
+	return x
+}
+
+func digits32(tag string, maxDigits int) uint32 {
+	d := 1 + vf.Choice(tag+".digits", maxDigits)
+	x := vf.NatU32(tag)
+	lo := uint32(pow10(d - 1))
+	if d == 1 {
+		lo = 0
+	}
+	vf.Assume(vf.All(x >= lo, x < uint32(pow10(d))))
+	return x
+}
+
+// VF_C15_HashInjective: two timestamps with the same Hash() are the same
+// timestamp.  The real Hash (format string and all) is executed; %d of a
+// symbolic integer becomes str.from_int.
+func VF_C15_HashInjective() {
+	ld, dd := 4, 3
+	if vf.Tier() == 1 {
+		ld, dd = 7, 4
+	}
+	mk := func(tag string) *Timestamp {
+		return &Timestamp{
+			Era:       digits32(tag+".era", 1),
+			Lamport:   digits64(tag+".lamport", ld),
+			CUID:      vf.Str(tag + ".cuid"),
+			Delimiter: digits32(tag+".delim", dd),
+		}
+	}
+	a, b := mk("a"), mk("b")
+	vf.Assume(vf.All(len(a.CUID) == 16, len(b.CUID) == 16))
+	ha, hb := a.Hash(), b.Hash()
+	vf.Reach("hashed")
+	same := vf.All(a.Era == b.Era, a.Lamport == b.Lamport, a.Delimiter == b.Delimiter, a.CUID == b.CUID)
+	vf.Assert(vf.Implies(ha == hb, same), "C15 Hash is injective")
+}
+
+// VF_C15_Clock: one step of the logical clock / sequence counter from an
+// arbitrary state (L4).
+func VF_C15_Clock() {
+	id := &OperationID{Era: 0, Lamport: vf.U64("lamport"), CUID: vf.UID("cuid"), Seq: vf.U64("seq")}
+	vf.Assume(vf.All(id.Lamport < 1<<62, id.Seq < 1<<62))
+	l0, s0 := id.Lamport, id.Seq
+	switch vf.Choice("step", 4) {
+	case 0: // local operation
+		n := id.Next()
+		vf.Reach("next")
+		vf.Assert(vf.All(n.Seq == s0+1, id.Seq == s0+1), "C15 sequence numbers increase by one")
+		vf.Assert(vf.All(n.Lamport > l0, n.Lamport == id.Lamport), "C15 clock increases on a local operation")
+		vf.Assert(n.CUID == id.CUID, "C15 identifier carries the client id")
+	case 1: // failed local operation: identifier consumed then rolled back
+		_ = id.Next()
+		id.RollBack()
+		vf.Reach("rollback")
+		vf.Assert(vf.All(id.Lamport == l0, id.Seq == s0), "C15 rollback restores clock and sequence")
+	case 2: // remote operation applied, then a local one
+		other := vf.U64("remote.lamport")
+		vf.Assume(other < 1<<62)
+		r := id.SyncLamport(other)
+		vf.Assert(vf.All(r == id.Lamport, id.Seq == s0), "C15 sync does not touch the sequence")
+		vf.Assert(vf.All(id.Lamport >= other, id.Lamport >= l0), "C15 clock never decreases on sync")
+		n := id.Next()
+		vf.Reach("sync")
+		vf.Assert(vf.All(n.Lamport > other, n.Lamport > l0), "C15 next local identifier is ordered after every applied operation")
+		ts := n.GetTimestamp()
+		rts := &Timestamp{Era: 0, Lamport: other, CUID: vf.UID("remote.cuid")}
+		vf.Assert(ts.Compare(rts) > 0, "C15 new local timestamp compares greater than the applied one")
+	case 3: // delimiters inside one operation are distinct and increasing
+		ts := &Timestamp{Era: 0, Lamport: l0, CUID: id.CUID, Delimiter: vf.U32("delim")}
+		vf.Assume(ts.Delimiter < 0xfffffffe)
+		a := ts.GetAndNextDelimiter()
+		b := ts.GetAndNextDelimiter()
+		c := ts.Clone()
+		vf.Reach("delim")
+		vf.Assert(vf.All(b.Delimiter == a.Delimiter+1, c.Delimiter == a.Delimiter+2, a.Delimiter != b.Delimiter), "C15 delimiters of one batch are distinct")
+		vf.Assert(vf.All(a.Lamport == l0, b.Lamport == l0, a.CUID == id.CUID), "C15 batch elements share the operation's clock and client")
+	}
+}
